@@ -73,4 +73,51 @@ def run (s : S) : List Op → S × List (Except Err Obs)
     | .ok (s', o) => let (sf, os) := run s' ops; (sf, .ok o :: os)
     | .error e => let (sf, os) := run s ops; (sf, .error e :: os)
 
+/-! ### sessions: files hold sky sets; `load` gives back the set that was saved -/
+
+structure Sess where
+  cur : S
+  files : Nat → Option S
+
+inductive SessErr | op (e : Err) | noFile
+  deriving DecidableEq, Repr
+
+inductive SessOp
+  | op (o : Op)
+  | save (f : Nat)
+  | load (f : Nat)
+  | unionFile (f : Nat)
+  | withoutFile (f : Nat)
+  | intersectFile (f : Nat)
+  | symdiffFile (f : Nat)
+
+def onCur (s : Sess) (o : Op) : Except SessErr (Sess × Obs) :=
+  match step s.cur o with
+  | .ok (r, ob) => .ok ({ s with cur := r }, ob)
+  | .error e => .error (.op e)
+
+def withFile (s : Sess) (f : Nat) (mk : S → Op) : Except SessErr (Sess × Obs) :=
+  match s.files f with
+  | some o => onCur s (mk o)
+  | none => .error .noFile
+
+def sessStep (s : Sess) : SessOp → Except SessErr (Sess × Obs)
+  | .op o => onCur s o
+  | .save f => .ok ({ s with files := fun g => if g = f then some s.cur else s.files g }, .none)
+  | .load f =>
+    match s.files f with
+    | some r => .ok ({ s with cur := r }, .none)
+    | none => .error .noFile
+  | .unionFile f => withFile s f .union
+  | .withoutFile f => withFile s f .without
+  | .intersectFile f => withFile s f .intersect
+  | .symdiffFile f => withFile s f .symdiff
+
+def sessRun (s : Sess) : List SessOp → Sess × List (Except SessErr Obs)
+  | [] => (s, [])
+  | op :: ops =>
+    match sessStep s op with
+    | .ok (s', o) => let (sf, os) := sessRun s' ops; (sf, .ok o :: os)
+    | .error e => let (sf, os) := sessRun s ops; (sf, .error e :: os)
+
 end Aegean.Spec.C08
